@@ -284,9 +284,9 @@ Qed.
 
 (* a heterozygous unphased call, in the property's words *)
 Lemma cell_unphased_spec x :
-  cell_unphased false x = true <-> ca x <> cb x /\ cp x = 0.
+  cell_unphased false x = true <-> ca x <> cb x /\ ca x < 254 /\ cb x < 254 /\ cp x = 0.
 Proof.
-  unfold cell_unphased. rewrite andb_true_iff, negb_true_iff, Z.eqb_neq, Z.eqb_eq. tauto.
+  unfold cell_unphased. rewrite !andb_true_iff, negb_true_iff, Z.eqb_neq, Z.eqb_eq, !Z.ltb_lt. tauto.
 Qed.
 
 (* ---- check_maf ------------------------------------------------------------- *)
@@ -530,6 +530,12 @@ Proof.
   split; [|split; vm_compute; reflexivity].
   exists 0%nat, 0%nat, [gc 2 1 0], (gc 2 1 0). repeat split; reflexivity.
 Qed.
+
+(* a haploid call (second allele missing, phase flag unset) and a half-missing call pass *)
+Example check_phase_missing_allele_passes :
+  let t := mkg [0; 1] [gv 0 1 10] [[gc 5 255 0]; [gc 255 1 0]] 3 None in
+  check_phase false t = QOk (strip_phase t).
+Proof. vm_compute. reflexivity. Qed.
 
 Definition t_anc : gtab :=
   mkg [0; 1] [gv 0 1 10; gv 1 1 12] [[gc 0 0 1; gc 0 1 1]; [gc 0 0 1; gc 1 0 1]] 3
